@@ -389,3 +389,78 @@
 		p.use_authority_key_identifier_extension = true;
 		refusal_check(p, true);
 	}
+
+	// ------------------------------------------------------------------ import kernel: subnet split (C17)
+	/// @ob subnet.split_inverts_to_bytes @props C17 @kind forall @tier quick @timeout 900 @features "x509-parser" @bound "IPv4 subtree of 8 symbolic bytes; lengths 7 and 9 skipped" @fns rcgen::CertificateParams::convert_x509_general_subtrees,rcgen::CidrSubnet::to_bytes
+	#[cfg(feature = "x509-parser")]
+	#[kani::proof]
+	#[kani::unwind(34)]
+	fn subnet_split_inverts_to_bytes() {
+		use x509_parser::extensions::{GeneralName, GeneralSubtree as XSubtree};
+		let b: [u8; 9] = kani::any();
+		kani::cover!(true, "reachable");
+		let trees = [XSubtree { base: GeneralName::IPAddress(&b[..8]) }];
+		match CertificateParams::convert_x509_general_subtrees(&trees) {
+			Ok(v) => {
+				assert!(v.len() == 1);
+				match &v[0] {
+					GeneralSubtree::IpAddress(CidrSubnet::V4(a, m)) => {
+						assert!(*a == [b[0], b[1], b[2], b[3]] && *m == [b[4], b[5], b[6], b[7]]);
+						let back = CidrSubnet::V4(*a, *m).to_bytes();
+						let mut i = 0;
+						while i < 8 { assert!(back[i] == b[i]); i += 1; }
+					},
+					_ => assert!(false, "8 octets are an IPv4 subnet"),
+				}
+				core::mem::forget(v);
+			},
+			Err(_) => assert!(false),
+		}
+		let odd = [XSubtree { base: GeneralName::IPAddress(&b[..7]) }, XSubtree { base: GeneralName::IPAddress(&b[..9]) }];
+		match CertificateParams::convert_x509_general_subtrees(&odd) {
+			Ok(v) => { assert!(v.is_empty(), "other lengths are not recoverable and are skipped"); },
+			Err(_) => assert!(false),
+		}
+	}
+
+	// ------------------------------------------------------------------ generation returns its parameters (C15)
+	fn stub_ser<K: PublicKeyData>(_s: &CertificateParams, _pub_key: &K, _issuer: Issuer<'_>) -> Result<CertificateDer<'static>, Error> {
+		Ok(Vec::new().into())
+	}
+
+	/// @ob cert.params_returned @props C15,C02 @kind forall @tier quick @timeout 900 @bound "fixed shape: 2-byte symbolic serial, symbolic flags / CA kind / path length, 2 symbolic key usages; serializer replaced by a stub" @fns rcgen::CertificateParams::self_signed,rcgen::Certificate::params,rcgen::Certificate::key_identifier
+	#[kani::proof]
+	#[kani::unwind(12)]
+	#[kani::stub(std::hash::RandomState::new, fixed_random_state)]
+	#[kani::stub(CertificateParams::serialize_der_with_signer, stub_ser)]
+	fn cert_params_returned() {
+		let k = kp();
+		let mut p = bare_params();
+		let sn: [u8; 2] = kani::any();
+		let aki: bool = kani::any();
+		let n: u8 = kani::any();
+		let e: [u8; 2] = kani::any();
+		kani::assume(e[0] < 9 && e[1] < 9);
+		let id: [u8; 3] = kani::any();
+		p.serial_number = Some(SerialNumber::from_slice(&sn));
+		p.use_authority_key_identifier_extension = aki;
+		p.is_ca = IsCa::Ca(BasicConstraints::Constrained(n));
+		p.key_usages = vec![ku_of(e[0]), ku_of(e[1])];
+		p.key_identifier_method = KeyIdMethod::PreSpecified(id.to_vec());
+		kani::cover!(true, "reachable");
+		match p.self_signed(&k) {
+			Ok(c) => {
+				let q = c.params();
+				assert!(q.serial_number == Some(SerialNumber::from_slice(&sn)));
+				assert!(q.use_authority_key_identifier_extension == aki);
+				assert!(q.is_ca == IsCa::Ca(BasicConstraints::Constrained(n)));
+				assert!(q.key_usages.len() == 2 && q.key_usages[0] == ku_of(e[0]) && q.key_usages[1] == ku_of(e[1]));
+				assert!(q.subject_alt_names.is_empty() && q.extended_key_usages.is_empty() && q.custom_extensions.is_empty());
+				assert!(q.name_constraints.is_none() && q.crl_distribution_points.is_empty());
+				let ki = c.key_identifier();
+				assert!(ki.len() == 3 && ki[0] == id[0] && ki[1] == id[1] && ki[2] == id[2], "reported key identifier = configured derivation");
+				core::mem::forget(c);
+			},
+			Err(_) => assert!(false),
+		}
+	}
